@@ -469,8 +469,28 @@ impl<Ix: SIx> Driver<Ix> {
                         self.obj = match &self.obj {
                             Obj::GD(g) => { let mut h = Graph::with_capacity(1, 1); h.add_node(99); h.clone_from(g); Obj::GD(h) }
                             Obj::GU(g) => { let mut h = Graph::with_capacity(1, 1); h.add_node(99); h.clone_from(g); Obj::GU(h) }
-                            Obj::SD(g) => { let mut h = StableGraph::with_capacity(1, 1); h.add_node(99); h.clone_from(g); Obj::SD(h) }
-                            Obj::SU(g) => { let mut h = StableGraph::with_capacity(1, 1); h.add_node(99); h.clone_from(g); Obj::SU(h) }
+                            Obj::SD(g) => {
+                                // the destination has its own history: live elements and vacant node AND edge slots (free lists)
+                                let mut h = StableGraph::with_capacity(1, 1);
+                                let k = ixmax.min(4).max(2);
+                                let ns: Vec<_> = (0..k).map(|i| h.add_node(90 + i as i32)).collect();
+                                let es: Vec<_> = (0..k).map(|i| h.add_edge(ns[i], ns[(i + 1) % k], 900 + i as i32)).collect();
+                                if x % 3 != 0 { h.remove_edge(es[1]); h.remove_edge(es[k - 1]); }
+                                if x % 3 == 1 { h.remove_node(ns[k - 2]); h.remove_node(ns[0]); }
+                                h.clone_from(g);
+                                Obj::SD(h)
+                            }
+                            Obj::SU(g) => {
+                                // the destination has its own history: live elements and vacant node AND edge slots (free lists)
+                                let mut h = StableGraph::with_capacity(1, 1);
+                                let k = ixmax.min(4).max(2);
+                                let ns: Vec<_> = (0..k).map(|i| h.add_node(90 + i as i32)).collect();
+                                let es: Vec<_> = (0..k).map(|i| h.add_edge(ns[i], ns[(i + 1) % k], 900 + i as i32)).collect();
+                                if x % 3 != 0 { h.remove_edge(es[1]); h.remove_edge(es[k - 1]); }
+                                if x % 3 == 1 { h.remove_node(ns[k - 2]); h.remove_node(ns[0]); }
+                                h.clone_from(g);
+                                Obj::SU(h)
+                            }
                             Obj::AGD(g) => Obj::AGD(g.clone()),
                             Obj::ASD(g) => Obj::ASD(g.clone()),
                         }
@@ -1357,7 +1377,7 @@ pub fn cover_replay(scripts: &[Value], stride: usize, offset: usize, log: &mut L
         let mut fan: Vec<Value> = vec![json!({"op":"try_add_node"}), json!({"op":"add_node"}), json!({"op":"reverse"}),
             json!({"op":"clear_edges"}), json!({"op":"clear"}), json!({"op":"map"}), json!({"op":"filter_map","m":2,"r":0}),
             json!({"op":"filter_map","m":2,"r":1}), json!({"op":"retain","kind":"node","m":2,"r":0}), json!({"op":"retain","kind":"edge","m":2,"r":1}),
-            json!({"op":"noeffect","which":"clone_from"}), json!({"op":"serde","fmt":"json","to":"same","mut":"none"}),
+            json!({"op":"noeffect","which":"clone_from","x":1}), json!({"op":"noeffect","which":"clone_from","x":2}), json!({"op":"serde","fmt":"json","to":"same","mut":"none"}),
             json!({"op":"serde","fmt":"bincode","to": if stable {"graph"} else {"stable"},"mut":"none"}),
             json!({"op": if stable {"to_graph"} else {"to_stable"}}), json!({"op":"from_elements"}), json!({"op":"add_node","via":"build"})];
         if !stable { fan.push(json!({"op":"into_edge_type","d":true})); fan.push(json!({"op":"into_edge_type","d":false})); }
